@@ -236,6 +236,7 @@ fn propagate_attachment_offsets(
     len: usize,
     i: usize,
     direction: Direction,
+    nesting_level: usize,
 ) {
     // Adjusts offsets of attached glyphs (both cursive and mark) to accumulate
     // offset of glyph they are attached to.
@@ -252,7 +253,11 @@ fn propagate_attachment_offsets(
         return;
     }
 
-    propagate_attachment_offsets(pos, len, j, direction);
+    if nesting_level == 0 {
+        return;
+    }
+
+    propagate_attachment_offsets(pos, len, j, direction, nesting_level - 1);
 
     match kind {
         attach_type::MARK => {
@@ -303,7 +308,13 @@ pub mod GPOS {
         // Handle attachments
         if buffer.scratch_flags & HB_BUFFER_SCRATCH_FLAG_HAS_GPOS_ATTACHMENT != 0 {
             for i in 0..len {
-                propagate_attachment_offsets(&mut buffer.pos, len, i, direction);
+                propagate_attachment_offsets(
+                    &mut buffer.pos,
+                    len,
+                    i,
+                    direction,
+                    MAX_NESTING_LEVEL,
+                );
             }
         }
     }
